@@ -246,4 +246,11 @@ def selftest():
         V("servicing-enter-any-prev", ST, "        elif not vehicle.vehicle_state.vehicle_state_type == VehicleStateType.DISPATCH_TRIP:", "        elif vehicle.vehicle_state.vehicle_state_type == VehicleStateType.SERVICING_TRIP:", rule="GD.PREV"),
         V("twin-exit-mirror", ST, "        if len(self.route) == 0:\n            return None, sim\n        else:\n            return None, None", "        if len(self.route) != 0:\n            return None, None\n        else:\n            return None, sim", kind="twin"),
         V("twin-cancel-mirror", CAN, "            if sim.sim_time < this_request_cancel_time:", "            if not (sim.sim_time >= this_request_cancel_time):", kind="twin"),
-    ]
+    ] + _auto()
+
+
+def _auto():
+    from ..loader import Repo
+    from .. import autovariants as av
+    return av.compare_variants(Repo(), [(ST, "ServicingTrip.exit"), (ST, "ServicingTrip._has_reached_terminal_state_condition"), (CAN, "CancelRequests.update._remove_from_sim")])
+
